@@ -247,3 +247,16 @@ def run(ck, F, tier):
     # the bits of an intra macroblock are attributed to the right syntax elements (tables of 5.3 / 5.4)
     from . import mblayer
     mblayer.run_for(ck, F, 'MB.', ['tcoef', 'mcbpc_i', 'cbpy'], ['macroblock', 'dquant', 'block'])
+    # "with optional stuffing": the loop runs until the number of DECODED macroblocks reaches the picture's macroblock count - a stuffing code word
+    # produces no macroblock and must not use up a turn (C15's rule M7: the exit compares len(macroblock_types) with mb_per_line * mb_height)
+    from . import c15
+    try:
+        c15.m7_count_bound(Scoped(ck, 'C15.'), F)
+    except Unanalysable as e:
+        ck.unanalysable('C15.M7 macroblock loop', str(e))
+    # "any width and height .. Sorenson version 0 and 1 and standard baseline headers .. planes of exactly the signalled size": the picture header is parsed as
+    # the standard lays it out (C06, whole, re-run on this tree)
+    from . import c06
+    c06.run(Scoped(ck, 'C06.'), F, tier)
+    # "luma and chroma planes of exactly the signalled size": plane allocation, accessors, nobody resizes (C13, whole, re-run on this tree)
+    c13.run(Scoped(ck, 'C13.'), F, tier)
